@@ -14,7 +14,7 @@ import (
 var c09longPayload int // set by the harness from its parameters (< 128)
 
 // c09file: a two-track format-1 file with fixed structure and symbolic data bytes: running status, tempo meta,
-// two-byte delta, sysex, an alien chunk between the tracks.
+// two-byte deltas (also in the last track), sysex, an alien chunk between the tracks.
 func c09file(withAlien bool) []byte {
 	d7 := func(n string) byte { v := zz.U8(n); zz.Assume(v < 0x80); return v }
 	ch := zz.U8("ch") & 0x0F
@@ -29,7 +29,7 @@ func c09file(withAlien bool) []byte {
 	t1 = append(t1, 0x81, d7("d4"), 0xF0, 0x03, zz.U8("x"), zz.U8("y"), zz.U8("z"))
 	t1 = append(t1, d7("d5"), 0xFF, 0x2F, 0x00)
 	t2 := []byte{d7("e1"), 0xC0 | ch, d7("p")}
-	t2 = append(t2, d7("e2"), 0xFF, 0x2F, 0x00)
+	t2 = append(t2, 0x82, d7("e2"), 0xFF, 0x2F, 0x00) // two-byte delta in the last track
 	file := c02header(1, 2, 0x01E0)
 	file = append(file, c02chunk("MTrk", t1)...)
 	if withAlien {
